@@ -6,7 +6,7 @@ Open Scope N_scope.
 
 Section C15.
   Variables (root : value) (ps : list path) (items : list value).
-  Hypothesis Hsel : find_positions PATH_FUEL root None ps = Ok items.
+  Hypothesis Hsel : find_positions root None ps = Ok items.
   Hypothesis Hnp : is_predicate ps = false.
 
   Theorem C15_first_is_head_of_all : forall buf,
@@ -36,7 +36,7 @@ Print Assumptions C15_exists_iff_nonempty.
 Print Assumptions C15_offsets_delimit_items.
 
 Theorem C15_predicate_every_mode : forall root e items m buf,
-  find_positions PATH_FUEL root None [PPredicate e] = Ok items ->
+  find_positions root None [PPredicate e] = Ok items ->
   select_t root [PPredicate e] m buf = Ok (buf ++ enc (VBool (pred_bool items)), []) /\
   predicate_match_t root [PPredicate e] = Ok (pred_bool items) /\
   exists_t root [PPredicate e] = Ok true.
@@ -65,7 +65,7 @@ Print Assumptions C15_bytes_build_array.
 Section C15_bytes.
   Variables (v : value) (ps : list path) (items : list value).
   Hypothesis Hwf : wfb v = true.
-  Hypothesis Hsel : find_positions PATH_FUEL (normalise v) None ps = Ok items.
+  Hypothesis Hsel : find_positions (normalise v) None ps = Ok items.
   Hypothesis Hnp : is_predicate ps = false.
   Theorem C15_bytes_first_is_head_of_all : forall buf,
     select_w (enc v) ps MFirst buf = Ok (match items with [] => (buf, []) | x :: _ => (buf ++ enc x, [lenN buf + lenN (enc x)]) end).
@@ -108,3 +108,13 @@ Theorem C15_exists_fails_with_select : forall root ps m buf, is_predicate ps = f
   failure (exists_t root ps) = failure (select_t root ps m buf).
 Proof. exact exists_t_fails_with_select. Qed.
 Print Assumptions C15_exists_fails_with_select.
+
+(* the hypothesis `find_positions root None ps = Ok items` of the laws above excludes only what the crate also answers with
+   an error (or a panic of the model): the evaluators have no recursion budget, a selection never fails for its length *)
+From JB Require Import PathNoFuel.
+Theorem C15_selection_never_fails_for_its_size :
+  (forall root ps, find_positions root None ps <> Err EFuel) /\
+  (forall root ps m buf, select_t root ps m buf <> Err EFuel) /\
+  (forall bs ps m buf, select_w bs ps m buf <> Err EFuel).
+Proof. exact (conj (fun root ps => find_positions_not_fuel root None ps) (conj select_t_not_fuel select_w_not_fuel)). Qed.
+Print Assumptions C15_selection_never_fails_for_its_size.
